@@ -668,6 +668,9 @@ func c10R3DeleteGC(c *Ctx, R3 string, r *c08Roles) {
 	// helpers that change the tag map and save it themselves before returning nil
 	clean := map[*ssa.Function]bool{}
 	for _, f := range c09FuncsOfPkg(c.P, c08Pkg) {
+		if c09IsYieldBody(f) {
+			continue
+		}
 		if len(c08Mutations(f, r)) > 0 && !r.dirty[f] && !r.savers[f] {
 			clean[f] = true
 		}
@@ -703,7 +706,7 @@ func c10R3DeleteGC(c *Ctx, R3 string, r *c08Roles) {
 		return false
 	}
 	for _, f := range c09FuncsOfPkg(c.P, c08Pkg) {
-		if ms, _ := mutationsOf(f); len(ms) == 0 {
+		if ms, _ := mutationsOf(f); len(ms) == 0 || c09IsYieldBody(f) {
 			continue
 		}
 		var rm []ssa.Instruction
